@@ -1,10 +1,10 @@
 """C02 -- folding and optimisation never change the computed function (structural clauses)."""
 from ..core import Ctx, Ob, PropSpec
-from ..rules import r1, r3, r8, r12, r12b, r8
+from ..rules import r14, r1, r3, r8, r12, r12b, r8
 
 
 def run(ctx: Ctx) -> list[Ob]:
-    return r3.r3c(ctx) + r3.r3d(ctx) + r3.r3e(ctx) + r3.r3f(ctx) + r12.r12a_outputs(ctx) + r8.run_guards(ctx, r8.GUARDS_MATCHERS) + r3.r3g(ctx) + r1.r1d_sweep(ctx) + r12b.layer_rewrites(ctx) + r12b.param_rewrites(ctx) + r12b.shatter_rewrites(ctx) + r3.r3h(ctx) + r3.r3i(ctx) + r3.r3j(ctx) + r12b.pattern_entry_subclasses(ctx)
+    return r3.r3c(ctx) + r3.r3d(ctx) + r3.r3e(ctx) + r3.r3f(ctx) + r12.r12a_outputs(ctx) + r8.run_guards(ctx, r8.GUARDS_MATCHERS) + r3.r3g(ctx) + r1.r1d_sweep(ctx) + r12b.layer_rewrites(ctx) + r12b.param_rewrites(ctx) + r12b.shatter_rewrites(ctx) + r3.r3h(ctx) + r3.r3i(ctx) + r3.r3j(ctx) + r14.view_of_noncontiguous(ctx) + r12b.pattern_entry_subclasses(ctx)
 
 
 SPEC = PropSpec(
@@ -25,6 +25,7 @@ SPEC = PropSpec(
         "semiring= from the compiler or a matched layer. R12b (symbolic shape + layout interpretation of both sides of every optimiser rewrite, nothing executed): for each layer fuse rule (sum collapse, Tucker, CP) and each parameter rule (log-softmax, reduce-sum of outer product -> einsum [+ flatten]), the matched chain and the modules the rule returns are interpreted on the same abstract inputs (arity 2..3 / rank 1..3, every axis pair) and agree on the result shape, on the element order of every result axis, on which data axes are contracted with which parameter axes (a weight viewed as several axes is re-assembled in order), and the fused layer carries the compiler's semiring."
         " R3h: a pointer node that survives folding takes its target from a lookup keyed by the pre-fold target (the registry R3e updates), in the pointer-folding function or in a pass over the folded circuit -- a target taken from deref() alone is the unfolded tensor folding replaced (known finding D19: parameter sharing inside one circuit fails under fold=True)."
         " R3i: in every config / fold_settings / params of a torch-side module an optional hyper-parameter is included under a None-test, never under a bare truthiness test (a bound of exactly 0.0 would be dropped when the folder / optimiser rebuilds the module from its config). R3j: every value a torch-side config returns is hashable (no list display / list(..) / Tensor.tolist(), directly or through a property): the folder uses (type, *fold_settings) with fold_settings = config.items() as a dictionary key. R12c: no strict subclass of a class named by an optimisation pattern's entries() redefines an evaluation method -- the matchers test isinstance, so such a subclass is rewritten by an identity that holds for its parent only."
+        " R14f: no layer / semiring / query code of the torch backend views the direct result of einsum / permute / transpose / expand without contiguous() -- the fused layers optimize=True introduces must evaluate for every size, not only for those whose strides happen to be compatible."
     ),
     not_decided=(
         "that each optimisation rewrite is an algebraic identity (R12b rewrite carry not built); the other match guards (class, "
